@@ -1118,3 +1118,12 @@ package mail
 //@ func mail.parseEMLHeaders (mailHeader, msg) (err)
 //@   loop 2 invariant[C10:addresses-as-parsed] 0 <= rangeindex + 1 && len(addrStrings) == rangeindex + 1 && (forall j :: 0 <= j && j < len(addrStrings) ==> addrStrings[j] == addrstr(parsedAddrs[j]))
 //@ at mail.parseEMLHeaders mail.parseEMLHeaders.addrFunc#1 before assert[C10:addresses-as-parsed] len(arg0) == len(parsedAddrs) && (forall j :: 0 <= j && j < len(arg0) ==> arg0[j] == addrstr(parsedAddrs[j]))
+
+// C18 (continued): (a) the words writeHeader folds are the value cut at its blanks - joined with one blank each they
+// give the value back, so runs of blanks and leading / trailing blanks survive the folding (strings.Fields would not do);
+// (b) outside writeHeader the renderer writes nothing but line breaks to the header sections directly - every header
+// line of a part at depth 0 goes through writeHeader and is folded there
+//@ at mail.msgWriter.writeHeader strings.Builder.WriteString#3 before assert[C06,C18:words-rejoin-to-the-value] joined(words, " ") == fullValueStr
+//@ at mail.msgWriter.writeHeader strings.Builder.String#1 before assert[C06,C18:words-rejoin-to-the-value] joined(words, " ") == fullValueStr
+//@ at mail.msgWriter.addFiles mail.msgWriter.writeString#* before assert[C18:only-line-breaks-written-directly] arg1 == "\r\n"
+//@ at mail.msgWriter.writePart mail.msgWriter.writeString#* before assert[C18:only-line-breaks-written-directly] arg1 == "\r\n"
